@@ -180,7 +180,7 @@ def family_programs():
 
     T = ("T", None)
     for page_fills in itertools.product((False, True), repeat=3):  # page gives a: fill x / fill y / fill default
-        for a_fill_x in ("none", "plain", "alias", "alias+slot", "passthrough-x", "passthrough-y"):
+        for a_fill_x in ("none", "plain", "alias", "alias+slot", "passthrough-x", "passthrough-y", "loop-passthrough"):
             for a_fill_y in ("none", "plain"):
                 for a_own in ("none", "slot-y", "slot-x-default"):
                     for b_inner in ("y", "x", "y-default", "none"):
@@ -202,7 +202,12 @@ def family_programs():
                                 fills.append(("Fill", "x", None, None, (T, ("Slot", a_fill_x[-1], "", (), (T,)))))
                             if a_fill_y == "plain":
                                 fills.append(("Fill", "y", None, None, (T,)))
+                            if a_fill_x == "loop-passthrough":
+                                # the tag sits in a loop and the fill hands on the slot named by the loop variable
+                                fills.insert(0, ("Fill", "x", None, None, (T, ("Slot", "$n", "", (), (T,)))))
                             b_tag = ("Comp", "b", (), False, tuple(fills) if fills else None)
+                            if a_fill_x == "loop-passthrough":
+                                b_tag = ("For", "n", "xy", (b_tag,))
                             own = ()
                             if a_own == "slot-y":
                                 own = (("Slot", "y", "", (), (T,)),)
